@@ -7,6 +7,9 @@ cluster states in recipe["clusters"] / recipe["snaps"][j]["clusters"] ({str(gues
   ["n"] normal   ["z"] zero flag, no host cluster (v3)   ["za"] zero flag + host cluster (v3)
   ["c", kind, seed] compressed (raw deflate, 4 KiB window; kind zero|pat|mix1|mix4|mix7|stored)
   ["s", alloc32, zero32, has_host] extended-L2 entry (sub-cluster i: zero bit -> zeros, alloc bit -> host data, else backing)
+  ["="] (snapshot maps only) the L2 entry of the active image for this guest cluster, copied: both views reference the same
+        host cluster / the same compressed blob, as after an internal snapshot whose cluster was not rewritten (absent in the
+        active image = unallocated)
 """
 from __future__ import annotations
 
@@ -35,8 +38,15 @@ def _gen_str(rng, maxlen, minlen=0):
     return s
 
 
-def _gen_bitmap(rng):
-    p = rng.choice(["alloc", "zplain", "zalloc", "alt", "alt2", "rand", "rand", "prefix", "suffix", "range", "bare"])
+SUB_PATTERNS = ["alloc", "zplain", "zalloc", "alt", "alt2", "rand", "rand", "prefix", "suffix", "range", "bare"]
+# "holes": a partially written cluster (some sub-clusters data, some written as zeros, in any order) whose sub-clusters up to one
+# cluster edge were never touched: an unallocated run that reaches the end (or, mirrored, the start) of the cluster, next to
+# zero-flagged and allocated sub-clusters whose lowest zero bit is not bit 0
+SUB_PATTERNS_HOLES = ["holes", "holes", "holes", "alloc", "rand", "prefix", "zalloc"]
+
+
+def _gen_bitmap(rng, pats=None):
+    p = rng.choice(pats or SUB_PATTERNS)
     a = z = 0
     if p == "alloc":
         a = M32
@@ -52,6 +62,15 @@ def _gen_bitmap(rng):
             t = rng.randrange(3)
             a |= (t == 1) << i
             z |= (t == 2) << i
+    elif p == "holes":
+        k = rng.randrange(2, 32)                           # sub-clusters k..31 unallocated
+        j = rng.randrange(1, k)                            # lowest zero bit
+        for i in range(k):
+            t = rng.choice([0, 1]) if i < j else (2 if i == j else rng.randrange(3))
+            a |= (t == 1) << i
+            z |= (t == 2) << i
+        if rng.random() < 0.25:                            # mirrored: the unallocated run is at the start of the cluster
+            a, z = (int(f"{v:032b}"[::-1], 2) for v in (a, z))
     elif p != "bare":
         i = rng.randrange(33)
         j = rng.randrange(i, 33)
@@ -61,15 +80,34 @@ def _gen_bitmap(rng):
     return ["s", a, z, host]
 
 
-def _gen_state(rng, k, cs):
+def _gen_state(rng, k, cs, pats=None):
     if k == "c":
         return ["c", rng.choice(["zero", "pat", "pat", "mix1", "mix4", "mix7"] + (["stored"] if cs <= 16384 else [])), rng.randrange(1 << 16)]
-    return _gen_bitmap(rng) if k == "s" else [k]
+    return _gen_bitmap(rng, pats) if k == "s" else [k]
 
 
-def _gen_map(rng, ncl, l2n, kinds, cs, dense=False):
+def _gen_cow_map(rng, base, ncl, kinds, cs, pats=None):
+    """the cluster map of a view that shares history with `base` (the active image): per guest cluster of `base` either the
+    very same L2 entry (["="]: shared host cluster / shared compressed blob), the same kind of cluster with other content
+    (rewritten after / before the snapshot: e.g. compressed in both views, different blobs), another kind, or nothing;
+    plus a few clusters only this view has"""
+    m = {}
+    for i, s in base.items():
+        t = rng.random()
+        if t < 0.3:
+            m[i] = ["="]
+        elif t < 0.75:
+            m[i] = _gen_state(rng, s[0] if s[0] in kinds else rng.choice(kinds), cs, pats)
+        elif t < 0.9:
+            m[i] = _gen_state(rng, rng.choice(kinds), cs, pats)
+    for _ in range(rng.randrange(3)):
+        m.setdefault(str(rng.randrange(ncl)), _gen_state(rng, rng.choice(kinds), cs, pats))
+    return m
+
+
+def _gen_map(rng, ncl, l2n, kinds, cs, dense=False, pats=None):
     if ncl <= 48:
-        p = rng.choice([0.3, 0.6, 0.9])
+        p = 0.9 if dense else rng.choice([0.3, 0.6, 0.9])
         idxs = {i for i in range(ncl) if rng.random() < p}
     else:
         nt = -(-ncl // l2n)
@@ -80,13 +118,15 @@ def _gen_map(rng, ncl, l2n, kinds, cs, dense=False):
             s = rng.randrange(ncl)
             idxs |= set(range(s, s + rng.randrange(1, 7)))
         idxs = {i for i in idxs if 0 <= i < ncl and rng.random() < 0.85}
-    return {str(i): _gen_state(rng, rng.choice(kinds), cs) for i in sorted(idxs)}
+    return {str(i): _gen_state(rng, rng.choice(kinds), cs, pats) for i in sorted(idxs)}
 
 
 def gen_recipe(rng, tier="quick", **kn):
     """knobs: cluster_bits version ext datafile hlen size depth(max files below this one) backing(none|raw|qcow2)
     nsnaps extras(allowed snapshot extra_data_size values) comp(bool) jumps(list of host base offsets)
-    snap_small_l1(probability of a snapshot L1 shorter than the active one needs) many_l2(bool)"""
+    snap_small_l1(probability of a snapshot L1 shorter than the active one needs) many_l2(bool)
+    sub_patterns(list of _gen_bitmap pattern names to draw extended-L2 bitmaps from, e.g. SUB_PATTERNS_HOLES) dense(bool: most clusters
+    present) kinds(cluster kinds to draw from) snap_cow(probability that a snapshot's map is derived from the active one: _gen_cow_map)"""
     big = tier == "thorough" or rng.random() < 0.08
     ext = kn.get("ext", rng.random() < 0.3)
     cbs = [14, 14, 14, 15, 16] + ([17, 18, 20, 21] if big else []) if ext else [9, 9, 9, 10, 10, 11, 12, 12, 13, 14, 16] + ([15, 17, 18, 19, 20, 21] if big else [])
@@ -113,8 +153,11 @@ def gen_recipe(rng, tier="quick", **kn):
     l1_size = need + (0 if mode == "exact" else rng.choice([0, 0, 0, 1, 3]))
     comp = kn.get("comp", True) and not datafile
     kinds = (["s"] * 4 if ext else ["n"] * 3 + (["z", "za"] if version == 3 else [])) + (["c", "c"] if comp else [])
+    if "kinds" in kn:
+        kinds = [k for k in kn["kinds"] if k in kinds] or kinds
+    pats = kn.get("sub_patterns")
     r = {"version": version, "hlen": hlen, "cluster_bits": cb, "ext": ext, "size": size, "l1_size": l1_size, "datafile": datafile,
-         "seed": rng.randrange(256), "clusters": _gen_map(rng, ncl, l2n, kinds, cs, dense=(mode == "many")),
+         "seed": rng.randrange(256), "clusters": _gen_map(rng, ncl, l2n, kinds, cs, dense=(mode == "many" or kn.get("dense", False)), pats=pats),
          "dirty": rng.random() < 0.1, "lazy": rng.random() < 0.2}
     # internal snapshots
     snaps = []
@@ -122,7 +165,11 @@ def gen_recipe(rng, tier="quick", **kn):
         small = need > 1 and rng.random() < kn.get("snap_small_l1", 0.03)
         sl1 = rng.randrange(1, need) if small else need + rng.choice([0, 0, 2])
         share = [t for t in range(min(need, sl1)) if rng.random() < 0.3]
-        m = _gen_map(rng, ncl, l2n, kinds, cs)
+        if kn.get("snap_cow") and rng.random() < kn["snap_cow"]:
+            share = share if need > 2 else []
+            m = _gen_cow_map(rng, r["clusters"], ncl, kinds, cs, pats)
+        else:
+            m = _gen_map(rng, ncl, l2n, kinds, cs, pats=pats)
         snaps.append({"id": _gen_str(rng, 20, 1), "name": _gen_str(rng, rng.choice([30, 30, 300])), "l1_size": sl1, "share": share,
                       "extra": rng.choice(kn.get("extras") or ([0] if version == 2 else []) + [16, 24, 32]), "xvals": [rng.getrandbits(rng.choice([20, 40, 64])) for _ in range(4)],
                       "date": [rng.getrandbits(32), rng.randrange(10 ** 9)], "clock": rng.getrandbits(rng.choice([30, 64])), "vmstate": rng.getrandbits(32),
@@ -309,8 +356,15 @@ class Truth:
                 img.put_hex(base + rel, comp)
                 prev = base + rel + len(comp)
                 cdesc[(k, i)] = (COMPRESSED | (nb << (70 - self.cb)) | (base + rel), raw)
+        raw_l2 = {}                                              # (map, guest cluster) -> L2 entry bytes as written
         for k, o in enumerate(own):
             for i, s in sorted(o.items()):
+                if s[0] == "=":                                  # the active image's entry, refcount 2: COPIED clear
+                    if (0, i) in raw_l2:
+                        e0 = struct.unpack(">Q", raw_l2[(0, i)][:8])[0] & ~(0 if r["datafile"] else COPIED)  # (data-file offset 0 needs COPIED)
+                        l2e[pos[("l2", k, i // l2n)] + (i % l2n) * esz] = struct.pack(">Q", e0) + raw_l2[(0, i)][8:]
+                        ent[k][i] = ent[0][i]
+                    continue
                 host, hostbits = pos.get(("d", k, i)), 0
                 if host is not None:
                     dat.put_pat(host, cs, r["seed"] + 31 * k + 7 * i)
@@ -322,7 +376,7 @@ class Truth:
                     e = hostbits | (ZERO if s[0] in ("z", "za") else 0)
                     ent[k][i] = (s, host)
                 bitmap = struct.pack(">Q", (s[1] | s[2] << 32) if s[0] == "s" else 0) if self.ext else b""
-                l2e[pos[("l2", k, i // l2n)] + (i % l2n) * esz] = struct.pack(">Q", e) + bitmap
+                raw_l2[(k, i)] = l2e[pos[("l2", k, i // l2n)] + (i % l2n) * esz] = struct.pack(">Q", e) + bitmap
         run_off, run = None, b""
         for off in sorted(l2e):                                  # adjacent entries become one hex segment; the rest of a table stays sparse zero
             if run_off is not None and run_off + len(run) == off:
